@@ -120,15 +120,16 @@ def replay (trace : String) : String :=
       | .skip => go s rest (k + 1) warns
       | .warn => go s rest (k + 1) (warns + 1)
       | .plain => s!"stuck@{k}:plaintext-frame-on-resumed-session"
-      -- an environment fault, outside the proved step relation: the client gave these acknowledgements up
-      | .storeFault x =>
-        match s.owedStore with
-        | y :: rest' => if x = y then go { s with owedStore := rest' } rest (k + 1) warns else s!"stuck@{k}:{e}"
-        | [] => s!"stuck@{k}:{e}"
-      | .ackFault ids =>
-        if ids.all (fun i => s.owedAck.contains i) then go { s with owedAck := strike s.owedAck ids } rest (k + 1) warns
-        else s!"stuck@{k}:{e}"
       | .bad w => s!"unparsed@{k}:{w}"
+      -- environment faults are events of the machine too (Ev.ackLost, Ev.storeLost)
+      | .storeFault x =>
+        match step s (.storeLost x) with
+        | some s' => go s' rest (k + 1) warns
+        | none => s!"stuck@{k}:{e}"
+      | .ackFault ids =>
+        match step s (.ackLost ids) with
+        | some s' => go s' rest (k + 1) warns
+        | none => s!"stuck@{k}:{e}"
       | .ev ev =>
         match step s ev with
         | some s' => go s' rest (k + 1) warns
